@@ -17,10 +17,17 @@ What is proved (Lean kernel, models `BV.Dict` / `BV.Recoder`):
   a decoder that was nevertheless given the dictionary and refers to already produced output.
 * `C10_roundtrip_partial`: composition with an explicit payload hypothesis.
 
+* `decoder_shrunk_ring_clobbers_dict` / `dict_tail_readable`: the decoder's copy path (ring shrink for a single last
+  meta-block + speculative 16-byte copies) is modelled (`BV.Dict.decCopy`, tied to the real decoder's output by
+  `dict decrun`); the known finding is a counterexample theorem with its concrete witness, and under the exact
+  conditions `CopySafe` / `SrcSafe` the copy path equals the byte-by-byte RFC reference decoder and the dictionary tail
+  stays readable — so nothing about the decoder's treatment of the tail is left as an unstated assumption.
+
 NOT proved (stated as hypotheses / exercised by engine `dict` on the real code): that the payload
 encoder's commands replay to the input under the ENCODER's own view (`PayloadOK`), that quality 0/1
-emit no static-dictionary reference, and the decoder hand model itself (`BV.Dict.Dec`, read from
-brotli-decompressor 4.0.3, tied by the differential decode of every run).
+emit no static-dictionary reference; the decoder model itself (`BV.Dict.Dec`, read from
+brotli-decompressor 4.0.3) is hand-written: its allocation/max_distance part is tied by the differential decode,
+its copy path by the `dict decrun` correspondence.
 -/
 import BV.Lemmas.DictDec
 import BV.Lemmas.DictEnc
